@@ -627,7 +627,12 @@ pub fn gen_c05(rng: &mut Rng, tier: Tier) -> C05Plan {
         cfg.mb_weights[0] += 20;
     }
     let class = if tier == Tier::Quick { *rng.pick(&[0u8, 0, 3]) } else { *rng.pick(&[0u8, 1, 3]) };
-    let (w, h) = gen_size(rng, class);
+    let (mut w, mut h) = gen_size(rng, class);
+    if w as u32 * h as u32 > 96 * 96 {
+        // the enumeration is quadratic in the victim's length: keep victims small
+        w = w.min(48);
+        h = h.min(48);
+    }
     let (fl, w, h) = flavour_for(rng, &cfg, w, h);
     let mut tr = rng.byte();
     let mut has_ref = false;
